@@ -107,15 +107,12 @@ theorem range_parse_safe_fails : ¬ RangeParseSafe {} := by
   intro h
   exact h int8 (some [⟨1, 10⟩]) [0x6d, 0x69, 0x6e, 0x7c, 0x7c] rfl
 
--- AUDIT: the statement is weaker than its docstring.  It is only about `base = some _` AND a part parser that
--- accepted; the first half of the docstring ("without a base restriction there is no walk and hence no out-of-bounds
--- read") and the case "the part parser itself reports an error" are not in the statement (they are proved, but only
--- inside the proof of `range_parse_safe_fixed`, i.e. under both repairs, although they need neither).  Not vacuous: the
--- hypotheses are met, e.g. by the F75 witness `1 100` (counter 1 < 2 parts), see the example below.  Minimal repair of
--- the statement: quantify over `base : Option (List Part)` and ask for the counter bound only where a walk happens —
--- done as `range_parse_safe_partial_anybase` below (the original is kept).
-/-- The part that holds: without a base restriction there is no walk and hence no out-of-bounds read, and with one the
-walk stays inside whenever the part counter does not exceed the number of parts. -/
+-- AUDIT (resolved): `range_parse_safe_partial_anybase` (below) is now THE stated "part that holds" theorem (every `base`, rejecting parses included); this one keeps its statement and is documented as the special case it is.
+/-- Special case `base = some _` with an accepting part parser (the walk lemma; kept because
+`range_parse_safe_partial_anybase` and `range_parse_safe_fixed` are proved from it): when the part parser accepts with
+a part counter that does not exceed the number of parts, the subset walk against the base restriction stays inside the
+parts array. It says nothing about `base = none` or about a rejecting part parser — see
+`range_parse_safe_partial_anybase` for the stated theorem. -/
 theorem range_parse_safe_partial (fx : RFix) (t : RType) (base : List Part) (arg : Bytes) (parts : List Part)
     (done : Nat) (hloop : loop fx t (some base) (arg.length + 1) arg {} = .ok (parts, done))
     (hdone : done ≤ parts.length) : compileRange fx t (some base) arg ≠ .error .crashOob := by
@@ -152,10 +149,12 @@ accepts two parts with the counter at 1 (so `range_subset_sound_partial` does no
 example : compileRange {} int8 (some [⟨1, 10⟩]) [0x31, 0x20, 0x31, 0x30, 0x30] ≠ .error .crashOob :=
   range_parse_safe_partial {} int8 [⟨1, 10⟩] [0x31, 0x20, 0x31, 0x30, 0x30] [⟨1, 1⟩, ⟨100, 100⟩] 1 rfl (by decide)
 
-/-- **Repaired statement of `range_parse_safe_partial` (audit)** — what its docstring says, for either state of the
-repairs, every type, every argument and every `base`: no out-of-bounds read without a base restriction (no walk), none
-when the part parser rejects, and none with a base restriction whenever the part counter of an accepting parse does not
-exceed the number of parts. -/
+/-- The part that holds — for either state of the repairs, every type, every argument and every `base`: the compiler
+never reads outside its arrays (a) when there is no base restriction (no subset walk happens, whatever the part
+counter), (b) when the part parser rejects the argument (the parser itself never reports an out-of-bounds access), and
+(c) with a base restriction and an accepting parse, whenever the part counter `parts_done` does not exceed the number
+of parts. The hypothesis asks for the counter bound only in case (c); F30 (`range_parse_safe_fails`) is exactly a
+violation of it. (`range_parse_safe_partial` above is case (c) alone.) -/
 theorem range_parse_safe_partial_anybase (fx : RFix) (t : RType) (base : Option (List Part)) (arg : Bytes)
     (hdone : ∀ b parts done, base = some b → loop fx t base (arg.length + 1) arg {} = .ok (parts, done) → done ≤ parts.length) :
     compileRange fx t base arg ≠ .error .crashOob := by
@@ -175,6 +174,21 @@ theorem range_parse_safe_partial_anybase (fx : RFix) (t : RType) (base : Option 
 example : compileRange {} int8 none [0x6d, 0x69, 0x6e, 0x7c, 0x7c] ≠ .error .crashOob :=
   range_parse_safe_partial_anybase {} int8 none _ (fun _ _ _ h => by cases h)
 example : loop {} int8 none 6 [0x6d, 0x69, 0x6e, 0x7c, 0x7c] {} = .ok ([⟨-128, -128⟩], 3) := rfl
+/-- non-vacuity (audit): … a base restriction and an accepting parse whose counter stays within the parts — the F75
+witness `1 100` against `1..10` (counter 1, two parts): the hypothesis is met by computing the parse -/
+example : compileRange {} int8 (some [⟨1, 10⟩]) [0x31, 0x20, 0x31, 0x30, 0x30] ≠ .error .crashOob :=
+  range_parse_safe_partial_anybase {} int8 (some [⟨1, 10⟩]) _ (fun _ parts done _ hl => by
+    have h : loop {} int8 (some [⟨1, 10⟩]) 6 [0x31, 0x20, 0x31, 0x30, 0x30] {} = .ok ([⟨1, 1⟩, ⟨100, 100⟩], 1) := rfl
+    have h2 := hl.symm.trans h
+    simp only [Except.ok.injEq, Prod.mk.injEq] at h2
+    obtain ⟨rfl, rfl⟩ := h2
+    decide)
+/-- non-vacuity (audit): … and a base restriction with a rejecting part parser — `5..` against `1..10` (nothing after
+`..`): no accepting parse, so the hypothesis asks for nothing -/
+example : compileRange {} int8 (some [⟨1, 10⟩]) [0x35, 0x2e, 0x2e] ≠ .error .crashOob :=
+  range_parse_safe_partial_anybase {} int8 (some [⟨1, 10⟩]) _ (fun _ parts done _ hl => by
+    have h : loop {} int8 (some [⟨1, 10⟩]) 4 [0x35, 0x2e, 0x2e] {} = .error .valid := rfl
+    exact absurd (h.symm.trans hl) (by simp))
 
 /-- with fixes/F30.diff the witness `min||` is a syntax error -/
 example : compileRange { f30 := true } int8 (some [⟨1, 10⟩]) [0x6d, 0x69, 0x6e, 0x7c, 0x7c] = .error .valid := rfl
